@@ -81,6 +81,9 @@ Near(a, b, tol) == Abs(a - b) <= tol
 BankOK(priceU, entryU, side) == Near(priceU * Lev, entryU * (IF side = "long" THEN Lev - 1 ELSE Lev + 1), 2 * Lev + 2)
 \* wallet' = wallet - entry*|q|/L - |q|*bankruptcy*fee
 FeeU(q8, priceU) == (((q8 * priceU) \div 8) * H.fee[1]) \div H.fee[2]
+\* liquidation price of the CURRENT entry price (LiqArith.tla): |entry - liq| = entry * (250 - L) / (250 * L)
+LiqFormulaOK(liqU, entryU, side) ==
+  Near((IF side = "long" THEN entryU - liqU ELSE liqU - entryU) * Lev * 250, entryU * (250 - Lev), 300 * Lev + 200)
 WalletOK(pre, post, q8, entryU, priceU) ==
   Near((pre - post - FeeU(q8, priceU)) * Lev * 8, entryU * q8, 8 * (4 * Lev + 4) + q8)
 
@@ -210,6 +213,8 @@ LiqCheck ==
      /\ verdict' = IF ph = "none" THEN "machinery:liquidation-check-outside-a-candle"
                    ELSE IF On("liq") /\ E.count # L.cnt THEN "liq:counter-changed-outside-the-liquidation-check"
                    ELSE IF On("liq") /\ iso /\ open /\ ~hasLiq THEN "liq:open-isolated-position-without-a-liquidation-price"
+                   ELSE IF On("liq") /\ iso /\ open /\ ~LiqFormulaOK(E.liqu, E.entry, IF E.q8 > 0 THEN "long" ELSE "short")
+                   THEN "liq:liquidation-price-is-not-the-one-of-the-current-entry-price-and-leverage"
                    ELSE IF ph = "minute" THEN StepVerdict ELSE ChunkVerdict      \* matching is over: nothing missed
 LiqCheckEnd ==
   LET did == E.count # L.cnt IN
